@@ -165,6 +165,47 @@ def check_acceptance(env):
     return out
 
 
+def check_chain_ingredients(env):
+    """the momentum refreshment of the chain classes and the sub-tree selection of the tree merge: deterministic relations behind invariance"""
+    jax, jnp, jft, hmc = env
+    out = []
+    hoo = importlib.import_module("nifty.re.hmc_oo")
+    U = lambda q: 0.5 * jnp.sum(q ** 2)
+    # momenta are drawn from N(0, M): mass_matrix_sqrt^2 * inverse_mass_matrix = 1, and the draw is mass_matrix_sqrt * white noise
+    for im in (4.0, 0.25, 1.0):
+        for cls, kw in ((hoo.HMCChain, dict(num_steps=3)), (hoo.NUTSChain, dict(max_tree_depth=3))):
+            try:
+                ch = cls(potential_energy=U, inverse_mass_matrix=im, position_proto=jnp.zeros(2), step_size=0.1, **kw)
+                ms = np.asarray(jax.tree_util.tree_leaves(ch.mass_matrix_sqrt)[0], dtype=float)
+                imv = np.asarray(jax.tree_util.tree_leaves(ch.inverse_mass_matrix)[0], dtype=float)
+                if not np.allclose(ms ** 2 * imv, 1., rtol=1e-12):
+                    out.append("%s(inverse_mass_matrix=%s): momenta are drawn with standard deviation %s, the mass is %s" % (cls.__name__, im, ms.ravel()[:2].tolist(), (1. / imv).ravel()[:2].tolist()))
+                key = jax.random.PRNGKey(4)
+                p = hmc.sample_momentum_from_diagonal(key=key, mass_matrix_sqrt=ch.mass_matrix_sqrt)
+                white = hmc.sample_momentum_from_diagonal(key=key, mass_matrix_sqrt=jax.tree_util.tree_map(jnp.ones_like, ch.mass_matrix_sqrt))
+                if not np.allclose(np.asarray(jax.tree_util.tree_leaves(p)[0]), ms * np.asarray(jax.tree_util.tree_leaves(white)[0]), rtol=1e-12):
+                    out.append("%s: the momentum draw is not mass_matrix_sqrt times white noise" % cls.__name__)
+            except Exception as e:
+                out.append("%s(inverse_mass_matrix=%s) raised %s: %s" % (cls.__name__, im, type(e).__name__, str(e)[:120]))
+    # merging two sub-trees: the new sub-tree's candidate is taken with probability min(1, w_new / w_old) (biased) or w_new / (w_new + w_old)
+    z = lambda v: hmc.QP(position=jnp.asarray([v, 0.]), momentum=jnp.asarray([1., 0.]))
+    for lw_old, lw_new in ((-1.0, -2.5), (-2.0, -0.5), (0.3, 0.1)):
+        for bias in (True, False):
+            cur = hmc.Tree(left=z(0.), right=z(1.), logweight=jnp.asarray(lw_old), proposal_candidate=z(0.5), turning=False, diverging=False, depth=1, cumulative_acceptance=jnp.asarray(0.))
+            new = hmc.Tree(left=z(2.), right=z(3.), logweight=jnp.asarray(lw_new), proposal_candidate=z(2.5), turning=False, diverging=False, depth=1, cumulative_acceptance=jnp.asarray(0.))
+            prob = min(1., np.exp(lw_new - lw_old)) if bias else 1. / (1. + np.exp(lw_old - lw_new))
+            for s_ in range(60):
+                k = jax.random.PRNGKey(100 + s_)
+                m = hmc.merge_trees(k, cur, new, jnp.asarray(True), bias_transition=bias)
+                took_new = float(m.proposal_candidate.position[0]) == 2.5
+                if took_new != bool(jax.random.bernoulli(k, prob)):
+                    out.append("merge_trees(bias_transition=%s) with log-weights old %s new %s: the new sub-tree's candidate is not taken with probability %.6f" % (bias, lw_old, lw_new, prob))
+                    break
+            if not np.isclose(float(m.logweight), np.logaddexp(lw_old, lw_new)) or int(m.depth) != 2 or float(m.left.position[0]) != 0. or float(m.right.position[0]) != 3.:
+                out.append("merge_trees: weight / depth / ends of the merged tree are wrong")
+    return out
+
+
 def run(ctx):
     env = _env()
     q = ctx.quick
@@ -211,6 +252,8 @@ def run(ctx):
                     ctx.violation(dict(kind="tree-ends"), "depth %d go_right=%s: left/right leaves %s (expected %s), proposal leaf %d" % (d, go_right, ends, want_ends, prop), replay=dict(what="tree", depth=d, go_right=go_right))
         for msg in check_acceptance(env):
             ctx.violation(dict(kind="acceptance"), msg, replay=dict(what="acceptance"))
+        for msg in check_chain_ingredients(env):
+            ctx.violation(dict(kind="chain", which=msg.split("(")[0]), msg, replay=dict(what="chain"))
     ctx.traces += len(trajs) + 8
     ctx.sample(dict(trajectory={k: trajs[3][k] for k in ("pot", "eps", "im")}, uturn_tests_depth3=expected[3]))
     ctx.assume("'long chains reproduce the moments' is a statistical statement without finite-state content: it is NOT decided; the deterministic ingredients whose failure "
@@ -228,6 +271,8 @@ def replay(ctx, doc):
             msgs = real_laws(env)
         elif c.get("what") == "acceptance":
             msgs = check_acceptance(env)
+        elif c.get("what") == "chain":
+            msgs = check_chain_ingredients(env)
         else:
             calls, ends, prop, depth, turning = tree_pairs(env, c["depth"], c["go_right"])
             msgs = [] if (not turning and depth == c["depth"]) else ["sub-tree reported as turning / incomplete"]
